@@ -72,6 +72,10 @@ CONFIGS = [
     cfg("sig_q", [["build"], ["signature"], ["signature", "forgesigned", "elideset", "addassertion", "decorate"], ["verify"]],
         atoms=("a1",), nreg=1, maxsize=30, maxt=1, inv=("WellFormedInv",), props=("C09Prop",),
         shapes="ShUpTo(%s, 2) \\cup {e \\in Sh(%s, 5) : IsNode(e)} \\cup NodeSubjectNodes(%s, 9)" % (B1, B1, B1)),
+    # removal / replacement in larger nodes and in nodes whose subject is a node (C07, C01)
+    cfg("remove_q", [["build"], ["pickassertion"], ["removereplace"], ["removereplace", "codec"]],
+        atoms=("a1", "a2"), nreg=2, maxsize=40, maxt=1, inv=("WellFormedInv",), props=("C07Prop",),
+        shapes="{e \\in Nodes4(%s) : e[2] = Leaf(V(\"a1\"))} \\cup {e \\in Nodes5(%s) : e[2] = KV(1)} \\cup NodeSubjectNodes(%s, 9) \\cup Decorated({Leaf(V(\"a1\"))})" % (B3, B3, B1)),
     cfg("sig_q2", [["build"], ["signature"], ["elideset", "compressone"], ["signature"], ["verify"]],
         atoms=("a1",), nreg=1, maxsize=40, maxt=1, inv=("WellFormedInv",), props=("C09Prop",),
         shapes="ShUpTo(%s, 2) \\cup NodeSubjectNodes(%s, 9)" % (B1, B1)),
